@@ -1,12 +1,16 @@
 // FAMILY(iludrop, "C15 [sd]qselect and ilu_[sd]drop_row called directly: the dropping rules of the incomplete LU against the model Slu.IluDrop / Slu.QSelect")
 #include "putil.h"
 #include "ilu_events.h"
-/* s, d, z (ilu_cdrop_row: the mixed float/double expressions of scasum/icamax/c_abs1 are not mirrored yet) */
+/* drop_row: s, d, c, z; qselect: s, d (the complex files call [sd]qselect) */
 #define PREC_S
 #include "prec.h"
 #include "fam_iludrop.inc"
 #include "unprec.h"
 #define PREC_D
+#include "prec.h"
+#include "fam_iludrop.inc"
+#include "unprec.h"
+#define PREC_C
 #include "prec.h"
 #include "fam_iludrop.inc"
 #include "unprec.h"
@@ -20,6 +24,6 @@ void fam_iludrop(ctx_t *c) {
         int dbl = (ty == 'd' || ty == 'z');
         int kind = (i % 5) < 2;   /* 40% qselect, 60% drop_row */
         if (kind) { if (dbl) iludrop_qsel_d(c, i, &r); else iludrop_qsel_s(c, i, &r); }
-        else { if (ty == 'z' || (ty == 'c' && (i & 4))) iludrop_row_z(c, i, &r); else if (dbl) iludrop_row_d(c, i, &r); else iludrop_row_s(c, i, &r); }
+        else { if (ty == 'z') iludrop_row_z(c, i, &r); else if (ty == 'c') iludrop_row_c(c, i, &r); else if (dbl) iludrop_row_d(c, i, &r); else iludrop_row_s(c, i, &r); }
     }
 }
